@@ -521,6 +521,31 @@ impl Server {
                     _ => Err(bad("not a writer".into())),
                 }
             }
+            // the data supplied through the vectored entry point of the Write / AsyncWrite traits, in `parts` slices,
+            // repeated until everything has been accepted (what write_all_vectored does)
+            "w_write_all_vectored" => {
+                let d = a!(data_arg(&req["data"]));
+                let parts = req.get("parts").and_then(|x| x.as_u64()).unwrap_or(2).max(1) as usize;
+                let mut off = 0usize;
+                let mut calls = 0u64;
+                while off < d.len() || calls == 0 {
+                    let rest = &d[off..];
+                    let step = (rest.len() + parts - 1) / parts.max(1);
+                    let slices: Vec<std::io::IoSlice> = if step == 0 { vec![std::io::IoSlice::new(rest)] } else { rest.chunks(step).map(std::io::IoSlice::new).collect() };
+                    let n = match self.get(req)? {
+                        Sess::SW(w) => ie(w.write_vectored(&slices))?,
+                        #[cfg(any(feature = "astd", feature = "tok"))]
+                        Sess::AW(w) => ie(ab(w.write_vectored(&slices)))?,
+                        _ => return Err(bad("not a writer".into())),
+                    };
+                    calls += 1;
+                    if n == 0 && !rest.is_empty() {
+                        return Err(bad("write_vectored accepted nothing".into()));
+                    }
+                    off += n;
+                }
+                Ok(json!(calls))
+            }
             "w_flush" => match self.get(req)? {
                 Sess::SW(w) => {
                     ie(w.flush())?;
